@@ -101,8 +101,9 @@ def finder_cutouts(repo, res):
                                                            'for xpos, ypos in self.xypos]'),
                     'star cutouts extracted around (ypos, xpos), the xypos rows unpacked as (xpos, ypos)')
     f = repo.method('photutils.detection.starfinder._StarFinderCatalog', 'slices')
-    expect_stmt(res, 'SPEC', f, nf_text('(slc, _)') + ' = ' + nf_text("overlap_slices(self.data.shape, self.shape, (ypos, xpos), mode='trim')"),
-                'StarFinder cutout slices around (ypos, xpos)')
+    SP.returns_match(repo, res, 'SPEC', f.fullname,
+                     ["[overlap_slices(self.data.shape, self.shape, (ypos, xpos), mode='trim')[0] for xpos, ypos in self.xypos]"],
+                     'the large slices of the kernel-sized window around (ypos, xpos), trimmed to the image')
 
 
 def run(repo, tier):
